@@ -37,7 +37,7 @@ func syncRun(w *bufio.Writer, rng *rand.Rand, run int, o syncOpts, stats map[str
 	cut := map[int]bool{}
 	cutFrom, cutLen := -1, 0
 	restartNode, restartAt := -1, -1
-	txMode := 0 // c16: 0 never, 1 always (pool non-empty), 2 a transaction appears during the extended wait
+	txMode := 0 // c16: 0 never, 1 always (pool non-empty), 2 a transaction appears during the extended wait, 3 right after the proposal that ends it
 	switch o.mode {
 	case "c09s":
 		N = 4 + rng.Intn(7)
@@ -76,7 +76,7 @@ func syncRun(w *bufio.Writer, rng *rand.Rand, run int, o syncOpts, stats map[str
 		if ratio == 1 {
 			maxTpb = tpb + tpb/2
 		}
-		txMode = rng.Intn(3)
+		txMode = rng.Intn(4)
 	}
 	fmt.Fprintf(w, "RUN %d N %d CFG 1000000 %d %d\n", run, N, amev, b2i(dyn))
 	stats[fmt.Sprintf("%s:N=%d", o.mode, N)]++
@@ -118,13 +118,14 @@ func syncRun(w *bufio.Writer, rng *rand.Rand, run int, o syncOpts, stats map[str
 	}
 	curStep := 0
 	lazy := map[int]bool{}
+	fired := map[int]int{} // c16 mode 3: subscriptions of a node the application has used up
 	waited := false
 	ledgerSyncs := 0
 	reset := func(n *node) {
 		if o.mode == "c16" && txMode == 1 {
 			n.pool = []uint64{uint64(n.height)*10 + 1}
 		}
-		if o.mode == "c16" && txMode == 2 {
+		if o.mode == "c16" && (txMode == 2 || txMode == 3) {
 			n.pool = nil
 			injected = false
 		}
@@ -354,9 +355,27 @@ func syncRun(w *bufio.Writer, rng *rand.Rand, run int, o syncOpts, stats map[str
 			h, v := best.tm.h, best.tm.v
 			best.tm.armed = false
 			before := best.height
+			nOutT := len(best.out)
 			best.op(fmt.Sprintf("T %d %d", h, v), func() { best.d.OnTimeout(h, v) })
 			if best.height != before {
 				reset(best)
+			} else if o.mode == "c16" && txMode == 3 && best.subs > fired[best.id] {
+				// the application's subscription is single-use and the library cannot cancel it: a transaction that shows up right
+				// after the proposal (before any answer to it has arrived) still makes the application call OnNewTransaction
+				proposed := false
+				for _, p := range best.out[nOutT:] {
+					if p.T == dbft.PrepareRequestType {
+						proposed = true
+					}
+				}
+				if proposed {
+					fired[best.id] = best.subs
+					for _, m := range nodes {
+						m.pool = []uint64{uint64(m.height)*10 + 9}
+					}
+					stats["c16-late-notifications"]++
+					best.op("N", func() { best.d.OnNewTransaction() })
+				}
 			}
 		}
 		collect(step)
